@@ -8,8 +8,30 @@ S == 64
 VARIABLES sh, l
 vars == <<sh, l>>
 
+\* Boolean-algebra laws on lattices too large for the exact arrangement (|c| <= 2^10): the results are opaque, the
+\* laws relate them.  Areas are logged as round(area * 4); eq flags are the library's Equals on pairs of results.
+\*   ar = <<A, B, AuB, BuA, AnB, BnA, A-B, B-A, AxB, BxA, (A-B)u(AnB), AuA>>
+\* (A = (A-B) u (A n B) is judged through its area only: the re-composition feeds computed crossing points back in,
+\* which lie within an ulp of the edge they came from - near-degenerate inputs the property excludes)
+NearI(x,y,t) == x - y <= t /\ y - x <= t
+CheckLaws(e) ==
+  LET ar == e.areas TT == 3 + e.areas[1] \div 1000000 + e.areas[2] \div 1000000 IN
+  IF e.err # "" THEN "law-error:" \o e.err
+  ELSE IF ~e.valid THEN "law-result-invalid"
+  ELSE IF ~e.eq[1] THEN "union-not-commutative"
+  ELSE IF ~e.eq[2] THEN "intersection-not-commutative"
+  ELSE IF ~e.eq[3] THEN "symmetric-difference-not-commutative"
+  ELSE IF ~e.eq[4] THEN "union-not-idempotent"
+  ELSE IF ~NearI(ar[3], ar[4], TT) \/ ~NearI(ar[5], ar[6], TT) \/ ~NearI(ar[9], ar[10], TT) THEN "area-not-commutative"
+  ELSE IF ~NearI(ar[3] + ar[5], ar[1] + ar[2], 2*TT) THEN "inclusion-exclusion"
+  ELSE IF ~NearI(ar[7] + ar[5], ar[1], 2*TT) \/ ~NearI(ar[8] + ar[5], ar[2], 2*TT) THEN "difference-area"
+  ELSE IF ~NearI(ar[9], ar[7] + ar[8], 2*TT) THEN "symmetric-difference-area"
+  ELSE IF ~NearI(ar[11], ar[1], TT) \/ ~NearI(ar[12], ar[1], TT) THEN "recomposition-area"
+  ELSE "ok"
+
 Check(e) ==
   IF e.panic # "" THEN "panic"
+  ELSE IF e.kind = "laws" THEN CheckLaws(e)
   ELSE IF ~PartsValid(e.a) \/ ~PartsValid(e.b) THEN "skip:invalid-operand"
   ELSE LET ga == Merge(e.a) gb == Merge(e.b) IN
   IF e.gp /\ ~GeneralPosition(ga,gb) THEN "skip:not-general-position"
